@@ -385,7 +385,7 @@ fn replay_line(base: Option<&Context>, w0: &World, out: &mut Out, l: &str) {
 fn main() {
     let args = Args::parse();
     let mut out = Out::new(&args);
-    out.rule = "stream `solve`: random constraint systems (1-8 variables, 1-8 equations with rational coefficients over variables, type parameters and base dimensions; planted-solvable, random, structural (Fn/List/struct skeletons), occurs-check, constructor clash, substitution error, HasField) through the real ConstraintSet::add+solve; streams `dtype`/`apply`: DType algebra on raw factor lists and substitution application. stream `prog`: type-directed generated programs of 3-8 statements over prelude units (let with/without annotation, lists, functions with concrete/generic/no annotations, derived units and dimensions, print, assert_eq, expressions; operators + - * / ^ -> comparisons, conditionals, calls of generic library and earlier user functions), each followed by >= 3 mutants (unit swapped, wrong annotation, wrong argument, wrong branch, wrong operand, wrong list element). distinct = distinct request text / program text; non-trivial = system with >= 2 constraints, program with >= 1 operator beyond a literal".into();
+    out.rule = "stream `solve`: random constraint systems (1-8 variables, 1-8 equations with rational coefficients over variables, type parameters and base dimensions; planted-solvable, random, structural (Fn/List/struct skeletons), occurs-check, constructor clash, substitution error, HasField) through the real ConstraintSet::add+solve; streams `dtype`/`apply`: DType algebra on raw factor lists and substitution application. stream `prog`: type-directed generated programs of 3-8 statements over prelude units (let with/without annotation, lists, functions with concrete/generic/no annotations, derived units and dimensions, print, assert_eq, expressions; operators + - * / ^ -> comparisons, conditionals, calls of generic library and earlier user functions, reciprocals `n / e`, zero powers `e^0`), each followed by >= 3 mutants (unit swapped, wrong annotation, wrong argument, wrong branch, wrong operand, wrong list element, `Dim` bound of a type parameter dropped). distinct = distinct request text / program text; non-trivial = system with >= 2 constraints, program with >= 1 operator beyond a literal".into();
 
     let w0 = tables::prelude_world();
     let mut prelude_error: Option<String> = None;
